@@ -139,8 +139,9 @@ func verifHarness_C11_matchEquiv() {
 	var rt *Route
 	want := ""
 	if groupedN == 2 {
-		G := verifC11Input("G")
-		verifAssume(verifNoMeta(G))
+		// nested groups: short prefixes (the product of three full-length strings is out of the quick budget)
+		G := verifString("G", verifLen("G_len", 0, 1))
+		verifAssume(verifAlphabet(G, "/ a."))
 		n2 := verifLen("G2_len", 0, 1)
 		G2 := verifString("G2", n2)
 		verifAssume(verifAlphabet(G2, "/ a"))
